@@ -19,6 +19,7 @@ mod oracle;
 mod probes;
 mod run;
 mod schema;
+mod skip_table;
 mod sweep;
 mod world;
 
@@ -294,6 +295,10 @@ fn cmd_batch(args: &[String], sweep_mode: bool) -> i32 {
     let max_failures: usize = arg(args, "--max-failures").map(|s| s.parse().expect("--max-failures")).unwrap_or(3);
     let want_digests = arg(args, "--digests").map(|s| s.to_string());
     let recvs = schema::recvs();
+    if gen::receiver_names(mode).is_empty() {
+        eprintln!("HARNESS-ERROR: no receiver of mode {} is left in this build (PARSESIM_SKIP={})", mode, skip_table::REQUESTED);
+        return 2;
+    }
     let sweep_cases: Vec<Scenario> = if sweep_mode { sweep::cases(mode, recvs) } else { Vec::new() };
     let count: u64 = if sweep_mode { sweep_cases.len() as u64 } else { arg(args, "--count").map(|s| s.parse().expect("--count")).unwrap_or(1000) };
     let progress = arg(args, "--progress").map(|p| std::fs::OpenOptions::new().create(true).write(true).truncate(true).open(p).expect("progress file"));
@@ -443,6 +448,9 @@ fn cmd_batch(args: &[String], sweep_mode: bool) -> i32 {
         "counters": stats.counters,
         "distinct": distinct,
         "failures": failures.len(),
+        "corpus_skip_requested": skip_table::REQUESTED,
+        "corpus_skipped": skip_table::skipped(),
+        "corpus_receivers": skip_table::ALL.len(),
         "corpus_sites": schema::all_sites().into_iter().collect::<Vec<u32>>(),
         "harness_errors": harness.iter().take(3).map(|(i, h)| json!({"index": i, "error": h})).collect::<Vec<_>>(),
         "replays": replays,
